@@ -9,12 +9,6 @@ import typing as t
 
 from . import kernels
 
-# (coq name, module, python expression, kind)
-CONSTS: t.List[t.Tuple[str, str, str, str]] = [
-    ("c_KDS_SERVICE_LABEL", "dpapi_ng._gkdi", "KDS_SERVICE_LABEL", "bytes"),
-    ("c_EPOCH_FILETIME", "dpapi_ng._client", "_EPOCH_FILETIME", "Z"),
-]
-
 SCRIPT = r"""
 import importlib, json, sys, uuid
 sys.path.insert(0, sys.argv[1])
@@ -42,38 +36,49 @@ print(json.dumps(out))
 def generate() -> t.Dict[str, dict]:
     import json
 
+    from . import kernel_table as _kt
+
     src = os.path.join(os.path.dirname(kernels.REPO_SRC))
     env = dict(os.environ, PYTHONPATH=src, PYTHONHASHSEED="0", PYTHONDONTWRITEBYTECODE="1")
-    p = subprocess.run(["/venv/bin/python", "-c", SCRIPT, src, json.dumps(CONSTS)], stdout=subprocess.PIPE,
-                       stderr=subprocess.PIPE, env=env, timeout=120)
     status: t.Dict[str, dict] = {}
+    allc = []
+    per_area = {}
+    for area, mod in _kt.areas().items():
+        cs = [] if isinstance(mod, Exception) else list(getattr(mod, "CONSTS", []))
+        per_area[area] = cs
+        allc += cs
+    p = subprocess.run(["/venv/bin/python", "-c", SCRIPT, src, json.dumps(allc)], stdout=subprocess.PIPE,
+                       stderr=subprocess.PIPE, env=env, timeout=120)
     vals = json.loads(p.stdout.decode()) if p.returncode == 0 else {}
-    lines = ["(* GENERATED on every run by vlib/consts.py from /repo/src/dpapi_ng -- do not edit. *)",
-             "From Coq Require Import ZArith List.", "Import ListNotations.", "Open Scope Z_scope.", ""]
-    for name, mod, expr, kind in CONSTS:
-        v = vals.get(name, {"error": "import failed: " + p.stderr.decode()[-300:]})
-        fb = os.path.join(kernels.COQ, "gen_fallback", name + ".v")
-        if isinstance(v, dict):
-            status[name] = {"located": False, "reason": v["error"]}
-            text = open(fb).read()
-        else:
-            if kind == "Z":
-                body = f"({v})" if v < 0 else str(v)
-                text = f"(* {mod} :: {expr} *)\nDefinition {name} : Z := {body}.\n"
-            elif kind == "bool":
-                text = f"(* {mod} :: {expr} *)\nDefinition {name} : bool := {'true' if v else 'false'}.\n"
+    for area, cs in per_area.items():
+        if not cs and area != "core":
+            continue
+        lines = ["(* GENERATED on every run by vlib/consts.py from /repo/src/dpapi_ng -- do not edit. *)",
+                 "From Coq Require Import ZArith List.", "Import ListNotations.", "Open Scope Z_scope.", ""]
+        for name, mod, expr, kind in cs:
+            v = vals.get(name, {"error": "import failed: " + p.stderr.decode()[-300:]})
+            fb = os.path.join(kernels.COQ, "gen_fallback", name + ".v")
+            if isinstance(v, dict):
+                status[name] = {"located": False, "reason": v["error"]}
+                text = open(fb).read() if os.path.exists(fb) else f"(* constant {name} not located and no fallback *)\n"
             else:
-                text = f"(* {mod} :: {expr} *)\nDefinition {name} : list Z := [" + "; ".join(map(str, v)) + "].\n"
-            status[name] = {"located": True, "source": f"{mod}.{expr}"}
-        status[name]["text"] = text
-        lines.append(text)
-    new = "\n".join(lines)
-    path = os.path.join(kernels.COQ, "gen", "Consts.v")
-    old = open(path).read() if os.path.exists(path) else None
-    if old != new:
-        os.makedirs(os.path.dirname(path), exist_ok=True)
-        with open(path, "w") as fh:
-            fh.write(new)
+                if kind == "Z":
+                    body = f"({v})" if v < 0 else str(v)
+                    text = f"(* {mod} :: {expr} *)\nDefinition {name} : Z := {body}.\n"
+                elif kind == "bool":
+                    text = f"(* {mod} :: {expr} *)\nDefinition {name} : bool := {'true' if v else 'false'}.\n"
+                else:
+                    text = f"(* {mod} :: {expr} *)\nDefinition {name} : list Z := [" + "; ".join(map(str, v)) + "].\n"
+                status[name] = {"located": True, "source": f"{mod}.{expr}"}
+            status[name]["text"] = text
+            lines.append(text)
+        new = "\n".join(lines)
+        path = os.path.join(kernels.COQ, "gen", _kt.const_file(area))
+        old = open(path).read() if os.path.exists(path) else None
+        if old != new:
+            os.makedirs(os.path.dirname(path), exist_ok=True)
+            with open(path, "w") as fh:
+                fh.write(new)
     return status
 
 
